@@ -200,10 +200,156 @@ func ruleProvMeta(c *Ctx, r *Rep) {
 				case "LastConfigHash":
 					ok := len(o) == 1 && strings.HasPrefix(o[0], "(*encoding/base64.Encoding).DecodeString(G(encoding/base64.StdEncoding)|") && content != "" && strings.Contains(o[0], strings.TrimSuffix(content, "#0"))
 					r.Check(ok, "stored-hash|"+fk, c.Pos(fs.st.Pos()), "StdEncoding.DecodeString of a part of the artifact file's content", joined)
+					// stored only where the marker was found: a file without a hash line has no stored hash (nil), which is
+					// what the changed-reason tests before it compares - the decoding of nothing is empty, not nil
+					searched := ""
+					gs := guardsOf(fs.st.Block())
+					if fr.site != nil {
+						gs = append(gs, guardsOf(fr.site.Block())...)
+					}
+					for _, g := range gs {
+						for _, l := range leaves(g.Cond, 0) {
+							for _, fnName := range []string{"bytes.Index(", "strings.Index(", "bytes.Cut(", "strings.Cut(", "bytes.CutPrefix(", "strings.CutPrefix(", "bytes.Contains(", "strings.Contains(", "bytes.HasPrefix(", "strings.HasPrefix("} {
+								// the answer of the search itself (the found flag of a Cut), not something computed from what was cut out
+								if !strings.HasPrefix(l, fnName) || !strings.Contains(l, "K(\"") || content == "" || !strings.Contains(l, strings.TrimSuffix(content, "#0")) {
+									continue
+								}
+								if strings.Contains(fnName, ".Cut(") && !strings.HasSuffix(l, ")#2") || strings.Contains(fnName, ".CutPrefix(") && !strings.HasSuffix(l, ")#1") {
+									continue
+								}
+								searched = l
+							}
+						}
+					}
+					if searched == "" {
+						// or the decoding itself happens only where the marker was found (in a helper that answers nil otherwise)
+						all, n := true, 0
+						for _, g2 := range c.Funcs {
+							if g2.Pkg != root.Pkg {
+								continue
+							}
+							for _, dc := range callsIn(g2) {
+								if calleeFullName(dc) != "(*encoding/base64.Encoding).DecodeString" {
+									continue
+								}
+								n++
+								hit := ""
+								for _, g := range guardsOf(dc.Block()) {
+									for _, l := range condLeaves(pv, g.Cond, 0) {
+										for _, fnName := range []string{"bytes.Index(", "strings.Index(", "bytes.Cut(", "strings.Cut(", "bytes.CutPrefix(", "strings.CutPrefix(", "bytes.Contains(", "strings.Contains(", "bytes.HasPrefix(", "strings.HasPrefix("} {
+											if !strings.HasPrefix(l, fnName) || !strings.Contains(l, "K(\"") {
+												continue
+											}
+											if strings.Contains(fnName, ".Cut(") && !strings.HasSuffix(l, ")#2") || strings.Contains(fnName, ".CutPrefix(") && !strings.HasSuffix(l, ")#1") {
+												continue
+											}
+											hit = l
+										}
+									}
+								}
+								if hit == "" {
+									all = false
+								} else {
+									searched = "the decoding lies behind " + hit
+								}
+							}
+						}
+						if !all || n == 0 {
+							searched = ""
+						}
+					}
+					if searched == "" {
+						// or the marker is searched by index throughout: then there is no text to decode without a find (the slice
+						// is cut at the index found, and LINT-RELIDX / LINT-IDXNEG see to it that a miss is tested first). Only a
+						// search that hands back a text either way - Cut, CutPrefix, TrimPrefix - has to have its answer looked at.
+						unasked := ""
+						cuts := 0
+						for _, g2 := range c.Funcs {
+							if g2.Pkg != root.Pkg {
+								continue
+							}
+							for _, sc := range callsIn(g2) {
+								name := calleeFullName(sc)
+								foundIdx := -1
+								switch name {
+								case "bytes.Cut", "strings.Cut":
+									foundIdx = 2
+								case "bytes.CutPrefix", "strings.CutPrefix":
+									foundIdx = 1
+								case "bytes.TrimPrefix", "strings.TrimPrefix":
+								default:
+									continue
+								}
+								// the needle: a constant text that is not a line end
+								needle := strings.Join(pv.Origins(sc.Common().Args[1]), ",")
+								if !strings.Contains(needle, "K(\"") || strings.Contains(needle, "\\n") {
+									continue
+								}
+								// only searches whose text goes on into a base64 decoding
+								feeds := false
+								for _, dc := range callsIn(g2) {
+									if calleeFullName(dc) == "(*encoding/base64.Encoding).DecodeString" && strings.Contains(strings.Join(pv.Origins(dc.Common().Args[1]), ","), name+"(") {
+										feeds = true
+									}
+								}
+								if !feeds {
+									continue
+								}
+								cuts++
+								asked := false
+								if call, isCall := sc.(*ssa.Call); isCall && foundIdx >= 0 && call.Referrers() != nil {
+									for _, ref := range *call.Referrers() {
+										if ex, isEx := ref.(*ssa.Extract); isEx && ex.Index == foundIdx && ex.Referrers() != nil && len(*ex.Referrers()) > 0 {
+											asked = true
+										}
+									}
+								}
+								if !asked {
+									unasked = c.Pos(sc.Pos()) + ": " + name + " hands back a text whether or not the marker is there, and nothing asks which"
+								}
+							}
+						}
+						if unasked == "" {
+							if cuts == 0 {
+								searched = "the marker is searched by index: no text without a find"
+							} else {
+								searched = "the answer of every Cut that feeds the decoding is looked at"
+							}
+						} else {
+							searched = ""
+						}
+						if unasked != "" {
+							r.Check(false, "stored-hash-only-when-found|"+fk, c.Pos(fs.st.Pos()), "the store lies behind a test that the marker was found in the file's content (no hash line: no stored hash, and the changed-reason stays out of it)", unasked)
+							continue
+						}
+					}
+					r.Check(searched != "", "stored-hash-only-when-found|"+fk, c.Pos(fs.st.Pos()), "the store lies behind a test that the marker was found in the file's content (no hash line: no stored hash, and the changed-reason stays out of it)", orStr(searched, "no condition on the way to the store looks at a search for the marker"))
 				}
 			}
 		}
 	})
+}
+
+// condLeaves: the operands a branch condition is computed from, rendered by provenance in the function they sit in.
+func condLeaves(pv *prov, v ssa.Value, d int) []string {
+	if d > 6 {
+		return nil
+	}
+	switch x := v.(type) {
+	case *ssa.BinOp:
+		return append(condLeaves(pv, x.X, d+1), condLeaves(pv, x.Y, d+1)...)
+	case *ssa.UnOp:
+		if x.Op == token.NOT {
+			return condLeaves(pv, x.X, d+1)
+		}
+	case *ssa.Phi:
+		var out []string
+		for _, e := range x.Edges {
+			out = append(out, condLeaves(pv, e, d+1)...)
+		}
+		return out
+	}
+	return pv.Origins(v)
 }
 
 func ruleProvAlias(c *Ctx, r *Rep) {
